@@ -114,6 +114,10 @@ def validate(resp, request: bytes = b"", head: bool = False) -> Verdict:
             hdr = dict(d["headers"])
             if "content-type" not in hdr:
                 raise Malformed("no Content-Type header")
+            if "content-length" in hdr and not head:
+                # HTTP/1.0: a Content-Length, if sent, is the number of body bytes that follow
+                if not hdr["content-length"].isdigit() or int(hdr["content-length"]) != len(d["body"]):
+                    raise Malformed("Content-Length %r but %d body bytes were sent" % (hdr["content-length"], len(d["body"])))
             if d["status"] == 404 or (fam == "wap" and d["reason"] == b"Not Found"):
                 return Verdict(True, "error", parsed=d)
             if d["status"] != 200:
